@@ -291,10 +291,21 @@ func (r *Range) Prefix() string {
 
 // ---- client operations ----
 
-// KfLateLowerUID is the id of the listed finding "a message with a lower UID than one already in the view is
-// announced by EXISTS but sorted into the middle of the view". While it is listed, the deterministic machines steer
-// away from it: before a session adds messages to its own selected mailbox, everything held back for it is released.
-const KfLateLowerUID = "C01-late-lower-uid"
+// KfOwnOvertakes is the id of the listed finding "a session applies its own membership changes (APPEND / COPY / MOVE
+// into, MOVE / EXPUNGE out of its selected mailbox) in-line, ahead of older updates of other parties that are still
+// queued for it". Symptoms when the queued updates are processed afterwards: (a) an addition with a lower UID than
+// one already in view is sorted into the middle of the view, or the session's own addition is refused with "UIDs must
+// be strictly ascending"; (b) a message the session itself has meanwhile removed is re-added as a ghost; (c) a
+// message the session itself has re-added (same-mailbox COPY) is ignored because the old instance is still in view,
+// and is then removed by the queued removal. While it is listed, the machines drain whatever is queued for a session
+// before it changes the membership of its own selected mailbox.
+const KfOwnOvertakes = "C01-own-change-overtakes-queued-updates"
+
+// KfLateLowerUID is the former name of the same finding (symptom a).
+const KfLateLowerUID = KfOwnOvertakes
+
+// KfOwnRemovalOvertakes is the former name of the same finding (symptom b).
+const KfOwnRemovalOvertakes = KfOwnOvertakes
 
 // KfStaleAfterSelect is the id of the listed finding "updates queued for a session before its SELECT/EXAMINE are
 // applied to the snapshot taken by that SELECT" (a message the snapshot no longer holds is re-added as a ghost).
@@ -307,25 +318,30 @@ func (w *World) SteerSelect(s *Sess) {
 		return
 	}
 
-	if w.Cfg.Deterministic {
-		if s.Held() > 0 {
-			ev.Excluded(1)
-			w.Release(s, -1)
-		}
-
-		return
-	}
-
-	w.Barrier()
+	w.drainQueued(s)
 }
 
 func (w *World) steerOwnAdd(s *Sess, dst string) {
-	if s.Selected == "" || !strings.EqualFold(dst, s.Selected) || !kf.Listed(KfLateLowerUID) {
+	if s.Selected == "" || !strings.EqualFold(dst, s.Selected) || !kf.Listed(KfOwnOvertakes) {
 		return
 	}
 
+	w.drainQueued(s)
+}
+
+func (w *World) steerOwnRemoval(s *Sess) {
+	if s.Selected == "" || !kf.Listed(KfOwnOvertakes) {
+		return
+	}
+
+	w.drainQueued(s)
+}
+
+// drainQueued makes sure that nothing is queued for the session: gate closed - everything held back is released and
+// processed (counted as excluded_known); gate open - a barrier.
+func (w *World) drainQueued(s *Sess) {
 	if !w.Cfg.Deterministic {
-		w.Barrier() // gate open: let the session process what is already queued for it
+		w.Barrier()
 		return
 	}
 
@@ -380,6 +396,7 @@ func (w *World) Store(t *rapid.T, s *Sess) (*imapc.Result, *Range) {
 
 func (w *World) Expunge(t *rapid.T, s *Sess) *imapc.Result {
 	w.Label("op:expunge")
+	w.steerOwnRemoval(s)
 	return s.Do("EXPUNGE")
 }
 
@@ -390,6 +407,7 @@ func (w *World) UIDExpunge(t *rapid.T, s *Sess) *imapc.Result {
 	}
 
 	w.Label("op:uidexpunge")
+	w.steerOwnRemoval(s)
 
 	return s.Do("UID EXPUNGE " + rg.Text)
 }
@@ -409,6 +427,10 @@ func (w *World) Copy(t *rapid.T, s *Sess, move bool) (*imapc.Result, *Range, str
 
 	w.Label("op:" + strings.ToLower(verb))
 	w.steerOwnAdd(s, dst)
+
+	if move {
+		w.steerOwnRemoval(s)
+	}
 
 	if strings.EqualFold(dst, s.Selected) {
 		w.Label("op:" + strings.ToLower(verb) + ".same")
